@@ -2,29 +2,33 @@
 # Must-fail corpus: every seeded mutant (seeded/*/patch.diff) and every line of selftest/mutants.txt must make its
 # property's check exit 1; every line of selftest/refactors.txt must keep exit 0. Patches are applied to /repo and
 # reverted immediately; nothing is committed. Usage: tools_selftest.sh [property filter]
+# Works on a scratch copy of /repo's working tree (removed at the end), so /repo itself is never touched.
 cd /verif || exit 2
 filter=${1:-C}
 pass=0; fail=0
-run() { ./bin/govc check -property "$1" >/tmp/st.log 2>&1; echo $?; }
+R=/tmp/st_repo
+V=/tmp/st_verif
+rm -rf $R $V; mkdir -p $R $V; rsync -a --exclude .git /repo/ $R/; rsync -a --exclude .git --exclude bin --exclude replays --exclude seeded --exclude govc /verif/ $V/
+run() { GOVC_FULL_SEC=10 ./bin/govc check -repo $R -verif $V -property "$1" >/tmp/st.log 2>&1; echo $?; }
 for d in seeded/*/; do
   id=$(basename $d); pid=$(python3 -c "import json;print(json.load(open('$d/meta.json'))['property'])" 2>/dev/null || echo ${id%%-*})
   case $pid in $filter*) ;; *) continue;; esac
-  (cd /repo && git apply /verif/$d/patch.diff) || { echo "SEED $id: patch does not apply"; fail=$((fail+1)); continue; }
-  rc=$(run $pid); (cd /repo && git apply -R /verif/$d/patch.diff)
+  (cd $R && git apply /verif/$d/patch.diff) || { echo "SEED $id: patch does not apply"; fail=$((fail+1)); continue; }
+  rc=$(run $pid); (cd $R && git apply -R /verif/$d/patch.diff)
   if [ "$rc" = 1 ]; then pass=$((pass+1)); echo "SEED $id ($pid): detected: $(grep VIOLATION /tmp/st.log | sed 's/.*obligation=//' | head -2 | tr '\n' ' ')"; else fail=$((fail+1)); echo "SEED $id ($pid): MISSED (exit $rc)"; fi
 done
 grep -v '^#' selftest/mutants.txt | while IFS="|" read -r pid file expr; do
   case $pid in $filter*) ;; *) continue;; esac
-  cp /repo/$file /tmp/st_backup; sed -i "$expr" /repo/$file
-  if cmp -s /repo/$file /tmp/st_backup; then echo "MUT $pid $file: sed did not change the file: $expr"; continue; fi
-  rc=$(run $pid); cp /tmp/st_backup /repo/$file
+  cp $R/$file /tmp/st_backup; sed -i "$expr" $R/$file
+  if cmp -s $R/$file /tmp/st_backup; then echo "MUT $pid $file: sed did not change the file: $expr"; continue; fi
+  rc=$(run $pid); cp /tmp/st_backup $R/$file
   if [ "$rc" = 1 ]; then echo "MUT $pid $file: detected: $(grep VIOLATION /tmp/st.log | sed 's/.*obligation=//' | head -1)"; else echo "MUT $pid $file: MISSED (exit $rc): $expr"; fi
 done
 grep -v '^#' selftest/refactors.txt | while IFS="|" read -r pid file expr; do
   case $pid in $filter*) ;; *) continue;; esac
-  cp /repo/$file /tmp/st_backup; sed -i "$expr" /repo/$file
-  if cmp -s /repo/$file /tmp/st_backup; then echo "REF $pid $file: sed did not change the file: $expr"; continue; fi
-  rc=$(run $pid); cp /tmp/st_backup /repo/$file
+  cp $R/$file /tmp/st_backup; sed -i "$expr" $R/$file
+  if cmp -s $R/$file /tmp/st_backup; then echo "REF $pid $file: sed did not change the file: $expr"; continue; fi
+  rc=$(run $pid); cp /tmp/st_backup $R/$file
   if [ "$rc" = 0 ]; then echo "REF $pid $file: ok (no alarm)"; else echo "REF $pid $file: FALSE ALARM (exit $rc): $(grep VIOLATION /tmp/st.log | sed 's/.*obligation=//' | head -1)"; fi
 done
-(cd /repo && git status --short | grep -v '^??' | head -3)
+rm -rf $R $V
